@@ -1406,6 +1406,21 @@ def builtin_corpus(prop):
                 "rounds": [{"fails": [], "crash": None, "reset": True, "req": ["d0.dir", "f0", "f1"]},
                            {"fails": [], "crash": None, "reset": False, "delete": ["d0.dir", "f0"],
                             "req": ["d1.dir", "f2", "f0"]}]})
+    # an object the destination index already knows must count as present (not re-sent): push A,
+    # then - same index, nothing deleted - push another directory B sharing file s with A (+ the bare
+    # file y of A): s and y are answered by index.intersection, only B's own file and B go up
+    fs2 = {"f0": hx(b"shared-s"), "f1": hx(b"only-y"), "f2": hx(b"only-z")}
+    ds2 = {"d0.dir": [["s", "f0"], ["y", "f1"]], "d1.dir": [["s", "f0"], ["z", "f2"]]}
+    src2 = {t: None for t in list(fs2) + list(ds2)}
+    for cls, shallow in (("local", True), ("base", False)):
+        r1 = ["d0.dir", "f0", "f1"] if shallow else ["d0.dir"]
+        r2 = ["d1.dir", "f0", "f2", "f1"] if shallow else ["d1.dir", "f1"]
+        out.append({"prop": prop, "files": fs2, "dirs": ds2, "src": src2, "cache": None, "dst": {},
+                    "req": r1, "shallow": shallow, "verify": False, "src_cls": "local", "dst_cls": cls,
+                    "dix": True, "six": False,
+                    "rounds": [{"fails": [], "crash": None, "reset": True, "req": r1},
+                               {"fails": [], "crash": None, "reset": False, "req": r2},
+                               {"fails": [], "crash": None, "reset": False, "req": r2}]})
     # seeded change m2: an upload that fails after writing part of the object is a failure.  The
     # shared file f1 is partial; both directories that list it are requested
     for cls in ("local", "base"):
